@@ -1,6 +1,7 @@
 package main
 
 import (
+	"path"
 	"fmt"
 	"strings"
 	"sync"
@@ -27,6 +28,8 @@ func corpusJSON() []*modSpec {
 			modFile{"layer.go", "package models\n\ntype Shape interface{ isShape() }\ntype Circle struct{ R int }\ntype Square struct{ S int }\n\nfunc (Circle) isShape() {}\nfunc (Square) isShape() {}\n\ntype Layer struct {\n\tContent Shape\n\tZ int\n}\n"}),
 		mk("json-member-through-a-promoted-method", "package models\n\ntype Shape interface{ isShape() }\n\ntype base struct{}\n\nfunc (base) isShape() {}\n\ntype Circle struct {\n\tbase\n\tR int\n}\n\ntype Square struct{ S int }\n\nfunc (Square) isShape() {}\n\ntype Mixin struct{ Tag string }\n\nfunc (Mixin) isShape() {}\n\ntype Label struct {\n\tMixin\n\tText string\n}\n\ntype Drawing struct {\n\tName string `json:\"name\"`\n\tMain Shape\n\tAll []Item\n}\n\ntype Item struct{ S Shape }\n"),
 		mk("json-embedded-struct-reached-through-its-own-union", "package models\n\ntype U interface{ isU() }\n\ntype Leaf struct{ N int }\n\nfunc (Leaf) isU() {}\n\ntype A struct {\n\tX int\n\tV U\n}\n\nfunc (A) isU() {}\n\ntype B struct {\n\tA\n\tY int\n}\n\ntype C struct {\n\tB\n\tZ string `json:\"z\"`\n}\n"),
+		withTags(mk("json-containers-of-an-imported-union", "package models\n\nimport \"example.com/org/models/shapes\"\n\ntype Shapes []shapes.Shape\n\ntype ByName map[string]shapes.Shape\n\ntype Pair [2]shapes.Shape\n\ntype Drawing struct {\n\tName string `json:\"name\"`\n\tMain shapes.Shape\n\tAll Shapes\n\tIdx ByName\n\tTwo Pair\n}\n",
+			modFile{"shapes/shapes.go", "package shapes\n\ntype Shape interface{ isShape() }\n\ntype Circle struct{ Radius int }\n\ntype Label string\n\ntype Group struct{ Lead Shape }\n\nfunc (Circle) isShape() {}\nfunc (Label) isShape()  {}\nfunc (Group) isShape()  {}\n"}), "gounions-for:shapes/shapes.go"),
 		mk("json-no-union", "package models\n\nimport \"time\"\n\ntype E int\n\nconst (\n\tE0 E = iota\n\tE1\n)\n\ntype Date time.Time\n\ntype Plain struct {\n\tA int\n\tB []byte\n\tC map[int]string\n\tD [2]bool\n\tE E\n\tT time.Time\n\tF float64\n\tG []E\n}\n"),
 	}
 }
@@ -46,6 +49,23 @@ func runC02(e *env) {
 	for i := 0; i < n; i++ {
 		prof := profile{Unions: true, Structs: true, NamedBasics: true, Enums: true, Containers: true, Time: true, Embedded: false, TagsAll: false, TagsSafe: true, TagsOmitempty: true, IgnoreOnWire: true, SiblingMembers: true, ModShape: 0, SubPkg: true}
 		specs = append(specs, synthModule(e.r, prof, i))
+	}
+	// the wrappers of the unions of another package live in that package: a module tagged gounions-for:<file> gets the
+	// output of gounions for that file too, as the tool is meant to be used (one run per package)
+	for _, m := range specs {
+		for _, t := range m.Tags {
+			if !strings.HasPrefix(t, "gounions-for:") {
+				continue
+			}
+			rel := strings.TrimPrefix(t, "gounions-for:")
+			sub := *m
+			sub.Target, sub.Name, sub.Tags = rel, m.Name+"/"+rel, nil
+			if so := observeAll([]*modSpec{&sub}, "gounions", 1)[0]; so.Gen["gounions"].Outcome == "ok" {
+				m.Files = append(m.Files, modFile{path.Join(path.Dir(rel), "zz_unions_of_the_package.go"), so.Gen["gounions"].Text})
+			} else {
+				e.m.fail(oracleFailure{What: "gounions on " + rel + " of module " + m.Name + ": " + so.Gen["gounions"].Msg + so.LoadErr, Input: m, NoInput: true})
+			}
+		}
 	}
 	obs := observeAll(specs, "gounions", 14)
 	results := make([]*binResult, len(specs))
@@ -153,3 +173,5 @@ func kindClassIfInput(cls string, o *obsResult) string {
 	}
 	return cls
 }
+
+func withTags(m *modSpec, tags ...string) *modSpec { m.Tags = append(m.Tags, tags...); return m }
